@@ -110,6 +110,20 @@ static const char *const A_DUR[NALPHA] = {
 	"+1d", "-1d", "=1d", "/1d", ">", "1mo2d", "+1d -2h", "xyz", "", "1dx",
 };
 
+/* separator-less, digits-only input formats (the needle-less digit scanner of the line reader) */
+static const char *const A_YMD8[NALPHA] = {
+	"20120331", "20120229", "20120301", "19650701", "20150701", "foo", "", "20120301 20120401", X235 " 20121231", "2012033",
+};
+static const char *const A_EPOCH[NALPHA] = {
+	"1333152000", "1330559999", "0", "86399", "1435752000", "foo", "", "1330560000 1333152000", X235 " 1356912000", "12",
+};
+static const char *const A_YJ[NALPHA] = {
+	"2012091", "2012060", "2012366", "1965182", "2015182", "foo", "", "2012061 2012092", X235 " 2012366", "201209",
+};
+static const char *const A_HMS6[NALPHA] = {
+	"123456", "000000", "235959", "240000", "120000", "foo", "", "010203 040506", X235 " 235959", "12345",
+};
+
 enum { M_ARGS = 1, M_STDIN = 2 };
 
 struct inv_s {
@@ -135,7 +149,18 @@ static const struct inv_s invs[] = {
 	{"--zone-Kolkata-S", {"-S", "--zone", "Asia/Kolkata", NULL}, M_STDIN, A_DT},
 	{"--from-zone-Berlin", {"--from-zone", "Europe/Berlin", NULL}, M_ARGS | M_STDIN, A_DT},
 	{"--from-zone-NY--zone-Berlin", {"--from-zone", "America/New_York", "--zone", "Europe/Berlin", "-f", "%FT%T%Z", NULL}, M_ARGS | M_STDIN, A_DT},
+	{"-i-ymd8", {"-i", "%Y%m%d", NULL}, M_ARGS | M_STDIN, A_YMD8},
+	{"-i-ymd8-S", {"-i", "%Y%m%d", "-S", NULL}, M_STDIN, A_YMD8},
+	{"-i-epoch", {"-i", "%s", NULL}, M_ARGS | M_STDIN, A_EPOCH},
+	{"-i-epoch-S", {"-i", "%s", "-S", NULL}, M_STDIN, A_EPOCH},
+	{"-i-yj", {"-i", "%Y%j", NULL}, M_ARGS | M_STDIN, A_YJ},
+	{"-i-yj-S", {"-i", "%Y%j", "-S", NULL}, M_STDIN, A_YJ},
+	{"-i-hms6", {"-i", "%H%M%S", NULL}, M_ARGS | M_STDIN, A_HMS6},
+	{"-i-hms6-S", {"-i", "%H%M%S", "-S", NULL}, M_STDIN, A_HMS6},
 #elif defined C13_TOOL_dadd
+	{"-i-ymd8+1d", {"-i", "%Y%m%d", "+1d", NULL}, M_STDIN, A_YMD8},
+	{"-i-ymd8-S+1mo", {"-i", "%Y%m%d", "-S", "+1mo", NULL}, M_STDIN, A_YMD8},
+	{"-i-epoch+1h", {"-i", "%s", "+1h", NULL}, M_STDIN, A_EPOCH},
 	{"+1d", {"+1d", NULL}, M_STDIN, A_DATE},
 	{"+1mo", {"+1mo", NULL}, M_STDIN, A_DATE},
 	{"-1y", {"--", "-1y", NULL}, M_STDIN, A_DATE},
@@ -150,6 +175,8 @@ static const struct inv_s invs[] = {
 	{"durs:datetime", {"2012-03-31T12:00:00", NULL}, M_STDIN, A_DUR},
 	{"durs:date-f", {"-f", "%a %F", "2012-02-29", NULL}, M_STDIN, A_DUR},
 #elif defined C13_TOOL_dround
+	{"-i-ymd8-Sat", {"-i", "%Y%m%d", "Sat", NULL}, M_STDIN, A_YMD8},
+	{"-i-ymd8-S-+1mo", {"-i", "%Y%m%d", "-S", "+1mo", NULL}, M_STDIN, A_YMD8},
 	{"Sat", {"Sat", NULL}, M_STDIN, A_DATE},
 	{"-n-Mon", {"-n", "Mon", NULL}, M_STDIN, A_DATE},
 	{"+1mo", {"+1mo", NULL}, M_STDIN, A_DATE},
@@ -159,6 +186,7 @@ static const struct inv_s invs[] = {
 	{"-S-Sat", {"-S", "Sat", NULL}, M_STDIN, A_DATE},
 	{"--zone-Berlin-/1h", {"--zone", "Europe/Berlin", "/1h", NULL}, M_STDIN, A_DATE},
 #elif defined C13_TOOL_ddiff
+	{"-i-ymd8", {"-i", "%Y%m%d", "20120301", NULL}, M_ARGS | M_STDIN, A_YMD8},
 	{"ref-date", {"2012-03-01", NULL}, M_ARGS | M_STDIN, A_DATE},
 	{"ref-datetime", {"2012-03-01T12:00:00", NULL}, M_ARGS | M_STDIN, A_DATE},
 	{"-f-mo-d", {"-f", "%m mo %d d", "2012-01-31", NULL}, M_ARGS | M_STDIN, A_DATE},
@@ -166,6 +194,7 @@ static const struct inv_s invs[] = {
 	{"--from-zone-NY", {"--from-zone", "America/New_York", "2012-03-01T12:00:00", NULL}, M_ARGS | M_STDIN, A_DATE},
 	{"-i-dmy", {"-i", "%d/%m/%Y", "01/03/2012", NULL}, M_ARGS | M_STDIN, A_DMY},
 #elif defined C13_TOOL_dgrep
+	{"-i-ymd8", {"-i", "%Y%m%d", ">=2012-03-01", NULL}, M_STDIN, A_YMD8},
 	{">=date", {">=2012-03-01", NULL}, M_STDIN, A_DATE},
 	{"<date", {"<2012-03-01", NULL}, M_STDIN, A_DATE},
 	{"-o>=date", {"-o", ">=2012-03-01", NULL}, M_STDIN, A_DATE},
@@ -378,6 +407,373 @@ judge(int ii, int mode, const int *seq, int n, int replay)
 	return bad;
 }
 
+/* ---- generic run: argv and stdin of any size ---- */
+static void
+run_raw(const char *const *argv, int argc, const char *in, size_t inlen, struct out_s *o, int timeout_s, size_t cap)
+{
+	struct fs_opts fo;
+	struct fs_result r;
+	EX_CTR(c_eval, "evaluations");
+
+	memset(&fo, 0, sizeof(fo));
+	if (in != NULL) {
+		fo.stdin_data = in;
+		fo.stdin_len = inlen;
+	}
+	fo.now = FAKE_NOW;
+	fo.env = run_env;
+	fo.timeout_s = timeout_s;
+	fo.out_cap = cap;
+	fs_run(c13_tool_main, argc, argv, &fo, &r);
+	++*c_eval;
+	o->out = r.out;
+	o->len = r.outlen;
+	o->ended = r.timed_out ? 1 : r.capped ? 3 : r.signaled ? 2 : 0;
+	o->status = r.signaled ? r.sig : r.status;
+	free(r.err);
+}
+
+static const char*
+bucket(long pos)
+{
+	return pos < 128 ? "<128" : pos < 256 ? "128..255" : ">=256";
+}
+
+/* ---- long histories: N values through one process ----
+ * VALS[0..NCYCLE) is repeated to N values; the output must be the concatenation of the
+ * single-value outputs, and (homogeneous streams) the exit status that of the single run */
+static int
+judge_long(int ii, int mode, const int *vals, int ncycle, int n, int replay)
+{
+	const struct inv_s *iv = invs + ii;
+	const char **argv = malloc(sizeof(*argv) * ((size_t)n + 16));
+	char *in = NULL;
+	size_t inlen = 0, pos = 0;
+	int argc = 0, bad = 0;
+	long firstdiff = -1;
+	struct out_s o;
+	char key[256], cas[64], a[700], b[700];
+	EX_CTR(c_trans, "transitions");
+	EX_CTR(c_long, "long_history_runs");
+	EX_CTR(c_nontriv, "nontrivial");
+
+	for (int i = 0; i < ncycle; i++) {
+		if (single[vals[i]].ended) {
+			free(argv);
+			return 0;
+		}
+	}
+	argv[argc++] = C13_TOOL;
+	for (int i = 0; iv->argv[i]; i++) {
+		argv[argc++] = iv->argv[i];
+	}
+	if (mode == M_ARGS) {
+		for (int i = 0; i < n; i++) {
+			argv[argc++] = iv->alpha[vals[i % ncycle]];
+		}
+	} else {
+		in = malloc((size_t)n * 260 + 1);
+		for (int i = 0; i < n; i++) {
+			const char *v = iv->alpha[vals[i % ncycle]];
+			size_t l = strlen(v);
+			memcpy(in + inlen, v, l);
+			inlen += l;
+			in[inlen++] = '\n';
+		}
+	}
+	run_raw(argv, argc, in, inlen, &o, 60, 8U << 20);
+	++*c_trans;
+	++*c_long;
+	++*c_nontriv;
+	snprintf(cas, sizeof(cas), "L %d %d %d %d", ii, mode, ncycle == 1 ? vals[0] : -1, n);
+	ex_outcome(ex_hash_mix(ex_hash(o.out, o.len), (uint64_t)(ii * 1000 + n)));
+	if (o.ended) {
+		snprintf(key, sizeof(key), "tools %s inv=%s mode=%s kind=long-history %s", C13_TOOL, iv->label, mode == M_ARGS ? "args" : "stdin",
+			 o.ended == 1 ? "does-not-terminate" : o.ended == 2 ? "dies-of-a-signal" : "output-cap");
+		ex_viol(key, n, cas, NULL, "%d values (%s) through one run: %s (signal/status %d) although each single-value run ends normally", n,
+			ncycle == 1 ? "all the same" : "cycling through the alphabet", o.ended == 1 ? "does not terminate" : o.ended == 2 ? "dies of a signal" : "overruns the output cap",
+			o.status);
+		bad = 1;
+	} else {
+		for (int i = 0; i < n; i++) {
+			const struct out_s *sg = single + vals[i % ncycle];
+			if (pos + sg->len > o.len || memcmp(o.out + pos, sg->out, sg->len)) {
+				firstdiff = i;
+				break;
+			}
+			pos += sg->len;
+		}
+		if (firstdiff < 0 && pos != o.len) {
+			firstdiff = n;
+		}
+		if (firstdiff >= 0) {
+			const struct out_s *sg = single + vals[(firstdiff < n ? firstdiff : n - 1) % ncycle];
+			snprintf(key, sizeof(key), "tools %s inv=%s mode=%s kind=long-history output-differs first-diff=%s", C13_TOOL, iv->label,
+				 mode == M_ARGS ? "args" : "stdin", bucket(firstdiff));
+			printable(o.out + (pos < o.len ? pos : o.len), o.len - (pos < o.len ? pos : o.len) > 80 ? 80 : o.len - (pos < o.len ? pos : o.len), a, sizeof(a));
+			printable(sg->out, sg->len > 80 ? 80 : sg->len, b, sizeof(b));
+			ex_viol(key, firstdiff, cas, NULL, "%d values (%s, value #%d = '%.40s') through one run: output departs from the single-value outputs at value number %ld: "
+				"prints '%s' where the single run prints '%s'", n, ncycle == 1 ? "all the same" : "cycling through the alphabet", vals[0], iv->alpha[vals[0]],
+				firstdiff + 1, a, b);
+			bad = 1;
+		} else if (ncycle == 1 && o.status != single[vals[0]].status) {
+			snprintf(key, sizeof(key), "tools %s inv=%s mode=%s kind=long-history status-differs", C13_TOOL, iv->label, mode == M_ARGS ? "args" : "stdin");
+			ex_viol(key, n, cas, NULL, "%d times value #%d: exit status %d, the single-value run exits with %d", n, vals[0], o.status, single[vals[0]].status);
+			bad = 1;
+		}
+	}
+	if (replay) {
+		printf("  %s %s inv=%s mode=%s: %d values (%s): %s\n", bad ? "FAIL" : "ok", C13_TOOL, iv->label, mode == M_ARGS ? "args" : "stdin", n,
+		       ncycle == 1 ? iv->alpha[vals[0]] : "cycle", bad ? ex.viol[ex.nviol - 1].detail : "output = n x single output, status as the single run");
+	}
+	free(o.out);
+	free(in);
+	free(argv);
+	return bad;
+}
+
+/* ---- zone names one of which is a prefix of another (the alist of opened zones is keyed by name) ---- */
+static const char *const zn_cand[] = {"Etc/GMT", "Etc/GMT+1", "Etc/GMT+10", "Etc/GMT+5", "EST", "EST5EDT", "MST", "MST7MDT"};
+#define NZNC	((int)(sizeof(zn_cand) / sizeof(*zn_cand)))
+static const char *zn[NZNC];
+static int nzn;
+static const char *const zdates[3] = {"2012-03-01T12:00:00", "2012-07-01T12:00:00", "1999-12-31T23:30:00"};
+
+static void
+zn_init(void)
+{
+	nzn = 0;
+	for (int i = 0; i < NZNC; i++) {
+		char p[256];
+		snprintf(p, sizeof(p), "/usr/share/zoneinfo/%s", zn_cand[i]);
+		if (access(p, R_OK) == 0) {
+			zn[nzn++] = zn_cand[i];
+		}
+	}
+}
+
+static void
+zone_viol(const char *inv, const char *cas, const char *cmd, const struct out_s *o, const char *exp, size_t elen, long ord)
+{
+	char key[256], a[700], b[700];
+	if (o->ended) {
+		snprintf(key, sizeof(key), "tools %s inv=%s mode=args kind=prefix-zone %s", C13_TOOL, inv,
+			 o->ended == 1 ? "does-not-terminate" : o->ended == 2 ? "dies-of-a-signal" : "output-cap");
+		ex_viol(key, ord, cas, cmd, "run ends abnormally (signal/status %d)", o->status);
+		return;
+	}
+	snprintf(key, sizeof(key), "tools %s inv=%s mode=args kind=prefix-zone output-differs", C13_TOOL, inv);
+	printable(o->out, o->len, a, sizeof(a));
+	printable(exp, elen, b, sizeof(b));
+	ex_viol(key, ord, cas, cmd, "prints '%s'; the single-zone runs give '%s'", a, b);
+}
+
+#if defined C13_TOOL_dzone
+/* dzone [--next --prev] Z1 Z2 [Z3] D1 D2 D3: the lines of zone Zj for date Di must be those of `dzone Zj Di' */
+static struct out_s zsingle[2][NZNC][3];
+
+static int
+judge_zone_tuple(int opt, const int *zi, int nz, int replay)
+{
+	const char *argv[16];
+	int argc = 0, bad;
+	struct out_s o;
+	char exp[4096], cas[64], cmd[512];
+	size_t elen = 0, k = 0;
+	EX_CTR(c_trans, "transitions");
+	EX_CTR(c_pz, "prefix_zone_runs");
+	EX_CTR(c_nontriv, "nontrivial");
+
+	argv[argc++] = C13_TOOL;
+	if (opt) {
+		argv[argc++] = "--next";
+		argv[argc++] = "--prev";
+	}
+	for (int j = 0; j < nz; j++) {
+		argv[argc++] = zn[zi[j]];
+	}
+	for (int d = 0; d < 3; d++) {
+		argv[argc++] = zdates[d];
+	}
+	run_raw(argv, argc, NULL, 0, &o, 20, 1U << 20);
+	++*c_trans;
+	++*c_pz;
+	++*c_nontriv;
+	for (int d = 0; d < 3; d++) {
+		for (int j = 0; j < nz; j++) {
+			const struct out_s *sg = &zsingle[opt][zi[j]][d];
+			if (elen + sg->len < sizeof(exp)) {
+				memcpy(exp + elen, sg->out, sg->len);
+				elen += sg->len;
+			}
+		}
+	}
+	snprintf(cas, sizeof(cas), "Z %d %d %d %d %d", opt, nz, zi[0], zi[1], nz > 2 ? zi[2] : -1);
+	for (int i = 0; i < argc && k < sizeof(cmd); i++) {
+		k += (size_t)snprintf(cmd + k, sizeof(cmd) - k, "%s%s", i ? " " : "", argv[i]);
+	}
+	ex_outcome(ex_hash_mix(ex_hash(o.out, o.len), 0x5a));
+	bad = o.ended || o.len != elen || memcmp(o.out, exp, elen);
+	if (bad) {
+		zone_viol(opt ? "zones--next--prev" : "zones", cas, cmd, &o, exp, elen, zi[0] * 64 + zi[1] * 8 + (nz > 2 ? zi[2] : 0));
+	}
+	if (replay) {
+		printf("  %s %s\n", bad ? "FAIL" : "ok", cmd);
+	}
+	free(o.out);
+	return bad;
+}
+
+static void
+zone_singles(void)
+{
+	for (int opt = 0; opt < 2; opt++) {
+		for (int z = 0; z < nzn; z++) {
+			for (int d = 0; d < 3; d++) {
+				const char *argv[8];
+				int argc = 0;
+				argv[argc++] = C13_TOOL;
+				if (opt) {
+					argv[argc++] = "--next";
+					argv[argc++] = "--prev";
+				}
+				argv[argc++] = zn[z];
+				argv[argc++] = zdates[d];
+				free(zsingle[opt][z][d].out);
+				run_raw(argv, argc, NULL, 0, &zsingle[opt][z][d], 20, 1U << 20);
+			}
+		}
+	}
+}
+
+static void
+prefix_zones(void)
+{
+	uint64_t slice = 1000000;
+	int have = 0;
+	for (int opt = 0; opt < 2; opt++) {
+		for (int a = 0; a < nzn; a++) {
+			for (int b = 0; b < nzn; b++) {
+				int zi[3] = {a, b, 0};
+				if (a == b || !ex_mine(slice++)) {
+					continue;
+				}
+				if (!have) {
+					zone_singles();
+					have = 1;
+				}
+				judge_zone_tuple(opt, zi, 2, 0);
+				for (int c = 0; c < nzn; c++) {
+					if (c == a || c == b) {
+						continue;
+					}
+					zi[2] = c;
+					judge_zone_tuple(opt, zi, 3, 0);
+				}
+			}
+		}
+	}
+}
+#elif defined C13_TOOL_dconv || defined C13_TOOL_dadd
+/* TOOL --from-zone Z1 --zone Z2 must be the two-process pipeline through UTC:
+ * (TOOL --from-zone Z1) | (TOOL --zone Z2), each in a process of its own */
+# if defined C13_TOOL_dadd
+#  define PZ_DUR1	"+1h"
+#  define PZ_DUR2	"+0s"
+# endif
+static int
+judge_zone_pair(int a, int b, int replay)
+{
+	const char *argv[12];
+	int argc, bad;
+	struct out_s o, u, e;
+	char in[256], exp[512], cas[64], cmd[512];
+	size_t inlen = 0, elen = 0;
+	EX_CTR(c_trans, "transitions");
+	EX_CTR(c_pz, "prefix_zone_runs");
+	EX_CTR(c_nontriv, "nontrivial");
+
+	for (int d = 0; d < 3; d++) {
+		inlen += (size_t)snprintf(in + inlen, sizeof(in) - inlen, "%s\n", zdates[d]);
+	}
+	/* the run under test */
+	argc = 0;
+	argv[argc++] = C13_TOOL;
+	argv[argc++] = "--from-zone";
+	argv[argc++] = zn[a];
+	argv[argc++] = "--zone";
+	argv[argc++] = zn[b];
+# if defined C13_TOOL_dadd
+	argv[argc++] = PZ_DUR1;
+# endif
+	run_raw(argv, argc, in, inlen, &o, 20, 1U << 16);
+	++*c_trans;
+	++*c_pz;
+	++*c_nontriv;
+	snprintf(cmd, sizeof(cmd), "printf '%%s\\n' %s %s %s | %s --from-zone %s --zone %s%s", zdates[0], zdates[1], zdates[2], C13_TOOL, zn[a], zn[b],
+# if defined C13_TOOL_dadd
+		 " " PZ_DUR1
+# else
+		 ""
+# endif
+		);
+	/* the pipeline */
+	argc = 0;
+	argv[argc++] = C13_TOOL;
+	argv[argc++] = "--from-zone";
+	argv[argc++] = zn[a];
+# if defined C13_TOOL_dadd
+	argv[argc++] = PZ_DUR1;
+# endif
+	run_raw(argv, argc, in, inlen, &u, 20, 1U << 16);
+	argc = 0;
+	argv[argc++] = C13_TOOL;
+	argv[argc++] = "--zone";
+	argv[argc++] = zn[b];
+# if defined C13_TOOL_dadd
+	argv[argc++] = PZ_DUR2;
+# endif
+	run_raw(argv, argc, u.out, u.len, &e, 20, 1U << 16);
+	elen = e.len < sizeof(exp) ? e.len : sizeof(exp) - 1;
+	memcpy(exp, e.out, elen);
+	snprintf(cas, sizeof(cas), "P %d %d", a, b);
+	ex_outcome(ex_hash_mix(ex_hash(o.out, o.len), 0x5b));
+	bad = o.ended || u.ended || e.ended || o.len != e.len || memcmp(o.out, e.out, e.len);
+	if (bad) {
+		zone_viol("--from-zone-Z1--zone-Z2", cas, cmd, &o, exp, elen, a * 8 + b);
+	}
+	if (replay) {
+		char x[300], y[300];
+		printable(o.out, o.len, x, sizeof(x));
+		printable(exp, elen, y, sizeof(y));
+		printf("  %s %s\n    prints '%s'; pipeline through UTC '%s'\n", bad ? "FAIL" : "ok", cmd, x, y);
+	}
+	free(o.out);
+	free(u.out);
+	free(e.out);
+	return bad;
+}
+
+static void
+prefix_zones(void)
+{
+	uint64_t slice = 1000000;
+	for (int a = 0; a < nzn; a++) {
+		for (int b = 0; b < nzn; b++) {
+			if (ex_mine(slice++)) {
+				judge_zone_pair(a, b, 0);
+			}
+		}
+	}
+}
+#else
+static void
+prefix_zones(void)
+{
+	return;
+}
+#endif
+
 static void
 do_singles(int ii, int mode)
 {
@@ -407,6 +803,40 @@ main(int argc, char *argv[])
 	ex_init(argc, argv);
 	maxlen = ex.thorough ? 4 : 3;
 
+	zn_init();
+	if (ex.cas && ex.cas[0] == 'L') {
+		int ii, mode, v, n, bad, cyc[NALPHA];
+		if (sscanf(ex.cas, "L %d %d %d %d", &ii, &mode, &v, &n) != 4 || ii < 0 || ii >= NINV || v >= NALPHA || n < 1 || n > 100000) {
+			return ex_replay_result(1, "bad case '%s'", ex.cas);
+		}
+		do_singles(ii, mode);
+		for (int i = 0; i < NALPHA; i++) {
+			cyc[i] = i;
+		}
+		bad = v >= 0 ? judge_long(ii, mode, &v, 1, n, 1) : judge_long(ii, mode, cyc, NALPHA, n, 1);
+		return ex_replay_result(bad, "%s", ex.cas);
+	}
+#if defined C13_TOOL_dzone
+	if (ex.cas && ex.cas[0] == 'Z') {
+		int opt, nz, zi[3], bad;
+		if (sscanf(ex.cas, "Z %d %d %d %d %d", &opt, &nz, zi, zi + 1, zi + 2) != 5 || opt < 0 || opt > 1 || nz < 2 || nz > 3 ||
+		    zi[0] < 0 || zi[0] >= nzn || zi[1] < 0 || zi[1] >= nzn || zi[2] >= nzn) {
+			return ex_replay_result(1, "bad case '%s'", ex.cas);
+		}
+		zone_singles();
+		bad = judge_zone_tuple(opt, zi, nz, 1);
+		return ex_replay_result(bad, "%s", ex.cas);
+	}
+#elif defined C13_TOOL_dconv || defined C13_TOOL_dadd
+	if (ex.cas && ex.cas[0] == 'P') {
+		int a, b, bad;
+		if (sscanf(ex.cas, "P %d %d", &a, &b) != 2 || a < 0 || a >= nzn || b < 0 || b >= nzn) {
+			return ex_replay_result(1, "bad case '%s'", ex.cas);
+		}
+		bad = judge_zone_pair(a, b, 1);
+		return ex_replay_result(bad, "%s", ex.cas);
+	}
+#endif
 	if (ex.cas) {
 		int ii, mode, n, seq[4], bad;
 		if (sscanf(ex.cas, "%d %d %d %d %d %d %d", &ii, &mode, &n, seq, seq + 1, seq + 2, seq + 3) != 7 || ii < 0 || ii >= NINV || n < 1 || n > 4) {
@@ -424,7 +854,12 @@ main(int argc, char *argv[])
 		"10-value alphabet (ultimo, 24:00:00, instants in three zone ranges incl. before 1970, unparsable, empty, two dates in one value, a 255-byte value, time only / "
 		"duration lines +1d -1d =1d /1d > 1mo2d '+1d -2h' xyz '' 1dx); the tool's main() runs in a forked child from a pristine image (fixed clock 2012-02-23, cleared "
 		"environment); oracle: stdout of the sequence run == concatenation of the stdouts of the single-value runs; a sequence run that does not terminate or dies is a "
-		"violation too; stderr and exit status are not compared. non-trivial = sequences whose members are not all the same value", C13_TOOL, NINV, maxlen);
+		"violation too; stderr and exit status are not compared. LONG HISTORIES (counter-wrap detector): for every invocation, mode and alphabet value one run with the value "
+		"repeated N times, N in {130,260,300,520} (thorough: every N in 120..300 and 520), and one stream cycling through the alphabet 300 times: output = concatenation "
+		"of the single-value outputs, exit status of a homogeneous stream = that of the single run. PREFIX-RELATED ZONE NAMES (%d of Etc/GMT Etc/GMT+1 Etc/GMT+10 Etc/GMT+5 "
+		"EST EST5EDT MST MST7MDT installed): dzone [--next --prev] over all ordered pairs and triples x 3 dates = the single-zone runs; dconv/dadd --from-zone Z1 --zone Z2 over all "
+		"ordered pairs = the two-process pipeline through UTC. non-trivial = sequences whose members are not all the same value, long histories, zone tuples",
+		C13_TOOL, NINV, maxlen, nzn);
 	ex_meta("bound", "%s: sequences up to length %d (%d per invocation and mode)", ex.thorough ? "thorough" : "quick", maxlen, ex.thorough ? 11110 : 1110);
 
 	/* slice = (invocation, mode, first value) */
@@ -466,6 +901,27 @@ main(int argc, char *argv[])
 						}
 					}
 				}
+				/* long histories of value v0; the mixed stream rides on v0 == 0 */
+				{
+					static const int nq[] = {130, 260, 300, 520};
+					int cyc[NALPHA];
+					if (ex.thorough) {
+						for (int n = 120; n <= 300 && !ex_expired(); n++) {
+							judge_long(ii, mode, &v0, 1, n, 0);
+						}
+						judge_long(ii, mode, &v0, 1, 520, 0);
+					} else {
+						for (int k = 0; k < 4; k++) {
+							judge_long(ii, mode, &v0, 1, nq[k], 0);
+						}
+					}
+					if (v0 == 0) {
+						for (int i = 0; i < NALPHA; i++) {
+							cyc[i] = i;
+						}
+						judge_long(ii, mode, cyc, NALPHA, 300 * NALPHA, 0);
+					}
+				}
 				if (ex_want_sample()) {
 					char cmd[1024];
 					int s3[3] = {v0, 3, 4};
@@ -474,6 +930,9 @@ main(int argc, char *argv[])
 				}
 			}
 		}
+	}
+	if (!ex_expired()) {
+		prefix_zones();
 	}
 	return ex_finish();
 }
